@@ -393,6 +393,11 @@ class InverseMatcher(WrappingMatcher):
 
             break
 
+        # The child may have been exhausted by the loop above; don't stop on a
+        # missing document
+        while self._id < self.limit and missing(self._id):
+            self._id += 1
+
     def id(self):
         return self._id
 
